@@ -46,6 +46,7 @@ def AnnExpr.beq : AnnExpr → AnnExpr → Bool
   | .bor a a', .bor b b' => AnnExpr.beq a b && AnnExpr.beq a' b'
   | .str a, .str b => AnnExpr.beq a b
   | .name n, .name m => n == m
+  | .dotted n p, .dotted m q => n == m && p == q
   | _, _ => false
 def AnnExpr.beqL : List AnnExpr → List AnnExpr → Bool
   | [], [] => true
@@ -202,7 +203,7 @@ mutual
 /-- arguments of `type[...]` whose `SubclassValue` is a `Ty`: classes, `Any`, `None`, literals and
 unions of those (possibly quoted) -/
 def typArgOk : AnnExpr → Bool
-  | .cls _ => true | .anyT => true | .none => true | .lit _ => true | .name _ => true
+  | .cls _ => true | .anyT => true | .none => true | .lit _ => true | .name _ => true | .dotted _ _ => true
   | .opt e => typArgOk e
   | .union es => typArgOkL es
   | .bor a b => typArgOk a && typArgOk b
@@ -402,7 +403,7 @@ end
 /-- **CPython** evaluating a name of the annotation expression when the `def` statement is executed:
 the module globals bound so far, then the builtins (else `NameError`: the module cannot be
 imported; such headers are outside `DefArgs.Supported`). -/
-def pyLookup (env : NameEnv) : Lookup := fun n =>
+def pyLookup (env : NameEnv) : Lookup := withAttrs env.attrs fun n =>
   match env.early.get n with
   | some t => some t
   | none => env.builtins.get n
@@ -411,6 +412,7 @@ mutual
 /-- the names of the expression outside string constants (the ones evaluating the expression looks up) -/
 def AnnExpr.outerNames : AnnExpr → List Nat
   | .name n => [n]
+  | .dotted n _ => [n]
   | .gen _ _ args => AnnExpr.outerNamesL args
   | .tup _ ms => AnnExpr.outerNamesL ms
   | .tupV _ e => e.outerNames
@@ -555,5 +557,26 @@ def registeredReturnBranches : List (String × String × String) := [
   ("compute_value_of_function", "(result is None)", "Attribute"),
   ("compute_value_of_function", "(result is None)", "AnyValue"),
   ("compute_value_of_function", "(isinstance(info.node, ast.AsyncFunctionDef)) and (not visitor.is_generator)", "make_coro_type")]
+
+/-- The attribute-resolution primitives on the annotation routes, as the model accounts for them: a dotted
+name inside a string annotation is resolved by `Context.get_attribute` with plain `getattr` (the model's
+`withAttrs` / `chain`); names fall back to `builtins` with `hasattr` / `getattr`; an unquoted annotation goes
+through the visitor's `get_attribute`. Compared with the regenerated `attrPrimitives` by
+`Props/C13.lean : annotation_attr_primitives_registered`: a switched primitive (e.g. `getattr_static`)
+breaks that obligation. -/
+def registeredAttrPrimitives : List (String × String × String × String) := [
+  ("pyanalyze/annotations.py", "Context.get_attribute", "getattr", "1"),
+  ("pyanalyze/annotations.py", "Context.get_name_from_globals", "getattr", "1"),
+  ("pyanalyze/annotations.py", "Context.get_name_from_globals", "hasattr", "1"),
+  ("pyanalyze/annotations.py", "_DefaultContext.get_name", "getattr", "1"),
+  ("pyanalyze/annotations.py", "_DefaultContext.get_name", "hasattr", "1"),
+  ("pyanalyze/annotations.py", "_Visitor.visit_Attribute", "get_attribute", "1"),
+  ("pyanalyze/annotations.py", "_make_type_var_value", "getattr", "2"),
+  ("pyanalyze/annotations.py", "_make_type_var_value", "hasattr", "1"),
+  ("pyanalyze/annotations.py", "_type_from_runtime", "getattr", "3"),
+  ("pyanalyze/annotations.py", "_type_from_runtime", "hasattr", "6"),
+  ("pyanalyze/name_check_visitor.py", "NameCheckVisitor.composite_from_attribute", "get_attribute", "1"),
+  ("pyanalyze/name_check_visitor.py", "NameCheckVisitor.get_attribute", "_get_attribute_fallback", "2"),
+  ("pyanalyze/name_check_visitor.py", "NameCheckVisitor.get_attribute", "get_attribute", "2")]
 
 end Pya.C13
